@@ -27,14 +27,16 @@ PP = "rssl_preprocess"
 def run(chk):
     f = chk.facts
     rule_tile(chk)
-    rule_int(chk)
-    rule_float(chk)
+    # the literal lexers are read as functions of the spelling; the THIR / MIR shape rules are the fallback
+    if not rule_int_eval(chk):
+        rule_int(chk)
+    if not rule_float_eval(chk):
+        rule_float(chk)
     rule_payload(chk)
     rule_positions(chk)
-    rule_int_eval(chk)
-    rule_float_eval(chk)
     import c09
-    c09.rule_lit_roundtrip(chk, prefix="C10.output")
+    if not c09.rule_lit_roundtrip(chk, prefix="C10.output"):
+        chk.unreadable("C10.output/roundtrip/readable", "format_literal / token_intermediate", "see the note", "formatter/src/formatter.rs")
 
 # ---- literal lexers read as functions of the spelling
 INT_DIGITS = {
@@ -82,7 +84,8 @@ def rule_int_eval(chk):
                     if "panicking" in str(e):
                         bad = bad or "`%s` aborts the lexer (%s)" % (text, str(e)[:60])
                         continue
-                    return chk.unreadable("C10.lit/int/readable", "literal_int", e, where(li))
+                    chk.note("C10.lit/int: literal_int is not readable (%s); the shape rules C10.int/* decide" % str(e)[:80])
+                    return False
                 v = _written_int(d, radix)
                 if isinstance(r, I.Enum) and r.variant == "Ok":
                     rest, tok = r.fields["0"]
@@ -96,7 +99,8 @@ def rule_int_eval(chk):
                     if lo <= v <= hi:
                         bad = bad or "`%s` (= %d, fits) is refused" % (text, v)
                 else:
-                    return chk.unreadable("C10.lit/int/readable", "literal_int", "result %r" % (r,), where(li))
+                    chk.note("C10.lit/int: literal_int result not readable; the shape rules C10.int/* decide")
+                    return False
         chk.ob("C10.lit/int/" + radix, bad is None, "%d spellings x %d suffixes: exact value with the suffix's kind, or refused when it does not fit" % (len(spellings), len(INT_SUFFIX))
                if bad is None else bad, where(li), sample={"radix": radix, "spellings": len(spellings) * len(INT_SUFFIX)})
     chk.floor("C10.floor/int-spellings", n, 300, "integer spellings read", where(li))
@@ -106,6 +110,7 @@ def rule_int_eval(chk):
 FLOAT_MANTISSAS = ["0.0031308", "0.055", "0.1", "0.3", "0.7", "1.1", "2.7", "1.", ".5", "3.14159265358979", "2.718281828459045", "0.30102999566398120", "123456789.125",
                    "9007199254740993.", "0.000001", "6.02214076", "1.7976931348623157", "4.9406564584124654", "2.2250738585072014", "8.98846567431158", "0.12345678901234567890",
                    "65504.", "16777217.", "0.333333343267440796", "100.", "7.", "5.5"]
+FLOAT_EXTREME = ["1e-9223372036854775808", "1e9223372036854775807", "1e9223372036854775808", "1.5e-18446744073709551615", "0.0e18446744073709551615", "7e4000", "7e-4000"]
 FLOAT_EXPONENTS = [None, "e0", "e1", "e-1", "e5", "E-7", "e+11", "e22", "e23", "e25", "e-25", "e38", "e-45", "e100", "e-100", "e300", "e308", "e-308", "e-324", "e310", "e-330"]
 FLOAT_SUFFIX = {"": ("LiteralFloat", False), "f": ("LiteralFloat32", True), "F": ("LiteralFloat32", True), "h": ("LiteralFloat16", True), "H": ("LiteralFloat16", True),
                 "l": ("LiteralFloat64", False), "L": ("LiteralFloat64", False)}
@@ -139,7 +144,8 @@ def rule_float_eval(chk):
                     if "panicking" in str(e):
                         bad.setdefault("abort", "`%s` aborts the lexer (%s)" % (text, str(e)[:60]))
                         continue
-                    return chk.unreadable("C10.lit/float/readable", "literal_float", e, where(lf))
+                    chk.note("C10.lit/float: literal_float is not readable (%s); the shape rules C10.exp/* / C10.narrow/* decide" % str(e)[:80])
+                    return False
                 if not (isinstance(r, I.Enum) and r.variant == "Ok"):
                     bad.setdefault("refused", "`%s` is refused" % text)
                     continue
@@ -157,6 +163,26 @@ def rule_float_eval(chk):
                 elif not (isinstance(got, float) and (got == want or (got != got and want != want))):
                     key = "nearest" if not narrow else "narrowed"
                     bad.setdefault(key, "`%s` is lexed as %r, the %s is %r" % (text, got, "nearest double" if not narrow else "nearest double narrowed once to single precision", want))
+    # exponents at and beyond the i64 / u64 limits: the value saturates (python's float() does the same), nothing aborts or loops
+    for text in FLOAT_EXTREME:
+        n += 1
+        try:
+            r = ip.apply(lf, [list(text.encode())])
+        except I.Unknown as e:
+            if "panicking" in str(e):
+                bad.setdefault("abort", "`%s` aborts the lexer (%s)" % (text, str(e)[:60]))
+                continue
+            if "loop too long" in str(e):
+                bad.setdefault("abort", "`%s`: the lexer iterates once per unit of the exponent" % text)
+                continue
+            chk.note("C10.lit/float: literal_float is not readable (%s); the shape rules C10.exp/* / C10.narrow/* decide" % str(e)[:80])
+            return False
+        if isinstance(r, I.Enum) and r.variant == "Ok":
+            got = r.fields["0"][1].fields.get("0")
+            if got != float(text):
+                bad.setdefault("nearest", "`%s` is lexed as %r, the nearest double is %r" % (text, got, float(text)))
+        else:
+            bad.setdefault("refused", "`%s` is refused" % text)
     for key, txt in (("nearest", "the token is the double nearest to the decimal text"), ("narrowed", "f / h literals are that double narrowed once to single precision"),
                      ("kind", "the suffix selects the token kind and the whole spelling is consumed"), ("refused", "no spelling of the table is refused"),
                      ("abort", "no spelling aborts the lexer")):
